@@ -67,6 +67,8 @@ def main():
         raceflag = ["-race"] if race else []
         rc0, out0 = run(["go", "test", "-vet=off", "-count=1"] + raceflag + pkgs, cwd=scratch)
         meta["confirmed"]["demo_passes_without_change"] = rc0 == 0
+        if rc0 != 0:
+            print("demo output without the change:", out0[-800:])
         rc, out = run("git apply %s" % patch, cwd=scratch)
         if rc != 0:
             print("patch does not apply:", out); meta["confirmed"]["applies"] = False
@@ -74,6 +76,8 @@ def main():
             meta["confirmed"]["applies"] = True
             rcb, outb = run("go build ./...", cwd=scratch)
             meta["confirmed"]["builds"] = rcb == 0
+            if rcb != 0:
+                print("build output:", outb[-800:])
             rc1, out1 = run(["go", "test", "-vet=off", "-count=1"] + raceflag + pkgs, cwd=scratch)
             meta["confirmed"]["demo_fails_with_change"] = rc1 != 0
             meta["demo_failure_excerpt"] = "\n".join(out1.splitlines()[-25:])[-2500:]
